@@ -296,10 +296,13 @@ def r_n4(ctx, gen):
             fi = strip(d[flags[0]])
             if fi[0] == 'call' and fi[1].endswith('::new'):
                 x = strip(fi[2][0])
-                ok_flag = x[0] == 'unop' and x[1] == 'Not' and strip(x[2])[0] == 'call' and strip(x[2])[1].endswith('::is_empty')
+                from rules import nonempty_of
+                coll = nonempty_of(x)
+                ok_flag = coll is not None and len(bms) == 1 and same(coll, d[bms[0]])
                 if ok_flag and built_at is not None:
                     # the emptiness is read after the pool has been completed
-                    ok_flag = f.dominates(built_at, strip(x[2])[3]) and built_at != strip(x[2])[3]
+                    reads = [s2[3] for s2 in walk(x) if s2[0] == 'call' and s2[1].endswith(('::is_empty', '::len')) and isinstance(s2[3], int)]
+                    ok_flag = bool(reads) and all(f.dominates(built_at, rb) and built_at != rb for rb in reads)
         ctx.check(ok_flag, rule, f.path + '/flag-start', f.loc(), 'recycling mode on iff the pool is non-empty',
                   'the recycling flag is not initialised to !available.is_empty()')
 
@@ -332,6 +335,22 @@ def r_n5(ctx, gen):
                                     ins.append(show(x.arg_term(1)))
                         good = kinds == ['p-tree'] and any('.item' in s and 'node' in s for s in ins)
                         why = 'used = ids of the Prefix::tree(self.index) scan in `%s`' % g.path
+                if not good and src[0] == 'call' and src[1].endswith(('RoaringBitmap>::new', 'Default::default')):
+                    # the scan is written out in the caller itself (or was inlined from a new helper): a local bitmap that
+                    # only receives the ids of the entries of a Prefix::tree(self.index) cursor
+                    fills = [x for x in f.calls() if x.callee.endswith(('RoaringBitmap>::insert', 'RoaringBitmap>::push')) and len(x.args) == 2
+                             and strip(x.arg_term(0))[0] == 'call' and strip(x.arg_term(0))[3] == src[3]]
+                    others = [x for x in f.calls() if x.args and strip(x.arg_term(0))[0] == 'call' and strip(x.arg_term(0))[3] == src[3] and x not in fills
+                              and x.callee.endswith(('bitor_assign', 'Extend::extend', 'insert_range', 'bitxor_assign', 'sub_assign', 'RoaringBitmap>::remove', 'bitand_assign', 'RoaringBitmap>::clear'))
+                              and f.dominates(x.bb, c.bb)]
+                    okf = bool(fills) and not others
+                    for x in fills:
+                        v = x.arg_term(1)
+                        scans = [(key_info(y[2][2]) or (None,))[0] for y in walk(v) if y[0] == 'call' and 'prefix_iter' in y[1] and len(y[2]) > 2]
+                        okf = okf and scans and set(scans) == {'p-tree'} and '.item' in show(v) and 'node' in show(v)
+                    if okf:
+                        good = True
+                        why = 'used = ids of the Prefix::tree(self.index) scan written out in `%s`' % f.path
                 ctx.check(good, rule, key, c.loc(), why, 'the set of ids in use given to the generator is not the scan of the index\'s own tree nodes (%s)' % why)
     ctx.floor(rule, 'generator constructions', n, 1)
 
